@@ -10,6 +10,7 @@ import (
 	"github.com/paulsonkoly/calc/types/node"
 
 	"verif/core"
+	"verif/gen"
 	"verif/sess"
 	"verif/tape"
 )
@@ -48,6 +49,7 @@ var BombSrc = []string{
 	"bgen = (n, k, c) -> {\ni = 0\nwhile i < n {\nif i == k {\nz = 1 / c\n}\nyield i\ni = i + 1\n}\n}",
 	"bloop = (n, k, d) -> {\ns = 0\nfor e <- fromto(0, n) {\nif e == k {\ns = s + bomb(d, 0)\n}\ns = s + e\n}\ns\n}",
 	"bnest = (n, k) -> {\ns = 0\nfor a <- map((x) -> x + 1, () -> bgen(n, k, 0)) {\ns = s + a\n}\ns\n}",
+	"bwalk = (n, c) -> {\nif n > 0 {\nfor e <- bwalk(n - 1, c) {\nyield e\n}\n} else {\nz = 1 / c\n}\nyield n\n}",
 	"bzip = (n, k) -> {\ns = 0\nfor a, b <- fromto(0, n), bgen(n, k, 0) {\ns = s + a + b\n}\ns\n}",
 }
 
@@ -116,7 +118,14 @@ func drawFault(tp *tape.Tape, fresh func() string) fault {
 	if tp.Draw(8) == 0 {
 		d = 100 + tp.Draw(400) // a failure hundreds of calls deep
 	}
-	switch tp.Draw(13) {
+	switch tp.Draw(14) {
+	case 13: // a failure at the bottom of n generators nested in one another (n iterator contexts alive when it happens)
+		n := 2 + tp.Draw(6)
+		if d >= 100 {
+			n = d
+		}
+		v := fresh()
+		return fault{a: fmt.Sprintf("for %s <- bwalk(%d, 0) {\n%s = %s\n}", v, n, y, v), tag: "F1.bottom_of_nested_generators", depth: true}
 	case 12: // two statements on one physical line, the first one fails: the second still runs
 		v := fresh()
 		a := fmt.Sprintf("%s = bomb(%d, 0) %s = %d", y, d%6, v, 100+tp.Draw(900))
@@ -218,6 +227,7 @@ func (C08) Run(tp *tape.Tape) core.Result {
 	streamPhase := tp.Draw(3) == 2 // 0: in-process twin only
 	var lsteps []lstep
 	var pending, allProbes []string
+	var condLocal gen.Def
 	nDefs := 0         // the definitions at the head of the history share one marker in the stream phase
 	sawBudget := false // a statement ran into the per-statement instruction budget: no stream phase (the loop has no statement boundaries to budget by)
 	top := g.TopScope(sw.TopRet)
@@ -291,6 +301,11 @@ func (C08) Run(tp *tape.Tape) core.Result {
 			goto done
 		}
 	}
+	// a function whose locals are mostly unassigned on the path taken: after failures it must still read them as nil
+	condLocal = g.DefCondLocals()
+	if both(condLocal.Src) {
+		goto done
+	}
 	nDefs = len(lsteps)
 	for i := 0; i < sw.NStmts+2; i++ {
 		// fault?
@@ -339,6 +354,12 @@ func (C08) Run(tp *tape.Tape) core.Result {
 						goto done
 					}
 				}
+			}
+		}
+		if tp.Draw(8) == 0 {
+			r.Inc("probe.unassigned_locals_after_failures", 1)
+			if both(fmt.Sprintf("toa(%s(%d))", condLocal.Name, tp.Draw(6))) {
+				goto done
 			}
 		}
 		if tp.Draw(12) == 0 {
